@@ -27,13 +27,14 @@ Present(s) == {k \in Keys : s[k] # None}
 \* keys matching a prefix, in ascending byte order
 Matching(s, p) == LexSort({k \in Present(s) : IsPrefixOf(p, k)})
 
-\* Iterate with a callback script: kind \in {"none","stop","err"}; the callback
-\* asks to stop / returns an error at its at-th invocation.
+\* Iterate with a callback script: kind \in {"none","stop","err","stoperr"}; the callback
+\* asks to stop / returns an error / does both (the usual "abort" idiom: return true, err)
+\* at its at-th invocation.
 IterVisited(s, p, kind, at) ==
   LET all == Matching(s, p)
   IN IF kind = "none" \/ at > Len(all) THEN all ELSE SubSeq(all, 1, at)
 
-IterErr(s, p, kind, at) == kind = "err" /\ at <= Len(Matching(s, p))
+IterErr(s, p, kind, at) == kind \in {"err", "stoperr"} /\ at <= Len(Matching(s, p))
 
 PutIn(s, k, v) == [s EXCEPT ![k] = v]
 DelIn(s, k)    == [s EXCEPT ![k] = None]
@@ -60,7 +61,7 @@ Iterate(p, kind, at) ==
 Reopen == /\ m' = m          \* everything written is durable after Close
           /\ res' = [op |-> "reopen"]
 
-IterKinds == {<<"none", 0>>, <<"stop", 1>>, <<"stop", 2>>, <<"err", 1>>, <<"err", 2>>}
+IterKinds == {<<"none", 0>>, <<"stop", 1>>, <<"stop", 2>>, <<"err", 1>>, <<"err", 2>>, <<"stoperr", 1>>, <<"stoperr", 2>>}
 
 Next == \/ \E k \in Keys, v \in Vals : Put(k, v)
         \/ \E k \in Keys : Get(k) \/ Delete(k)
@@ -84,7 +85,7 @@ IterContract ==
                          \/ (Len(v) > 0 /\ LexLess(v[Len(v)], k)       \* ... before the stop point
                              /\ res.kind # "none" /\ Len(v) = res.at)
        /\ (res.kind = "none" => Len(v) = Cardinality(all))
-       /\ (res.err <=> (res.kind = "err" /\ Len(v) = res.at))
+       /\ (res.err <=> (res.kind \in {"err", "stoperr"} /\ Len(v) = res.at))
 
 GetContract == res.op = "get" => res.v = m[res.k]
 
